@@ -106,7 +106,7 @@ MUTANTS = [
     ("C08-open_device-lets-ValueError-out", "C08", "devices.py", "        except ValueError as ex:\n", "        except KeyError as ex:\n", 1),
     ("C08-unknown-escape-kept", "C08", "parser.py", "            (ctx_start, ctx, f\"Unknown escape '\\\\{char}' in a string\")\n        )\n        return \"\"", "            (ctx_start, ctx, f\"Unknown escape '\\\\{char}' in a string\")\n        )\n        return \"\\\\\" + char", 1),
     ("C08-excess-quote-index-off-by-one", "C08", "parser.py", '"Please remove the second quotation mark."][len(value)]', '"Please remove the second quotation mark."][len(value) + 1]', 1),
-    ("C08-hex-escape-call-respaced (negative control: white space only)", "C08", "parser.py", 'num = Parser.regex(r"[0-9a-f]{2}", skip_whitespace_before=False)', 'num = Parser.regex(r"[0-9a-f]{2}",  skip_whitespace_before=False)', 0),
+    ("NEG-hex-escape-call-respaced", "C08", "parser.py", 'num = Parser.regex(r"[0-9a-f]{2}", skip_whitespace_before=False)', 'num = Parser.regex(r"[0-9a-f]{2}",  skip_whitespace_before=False)', 0),
     ("C16-extern-all-not-carried", "C16", "compiler.py", 'state = {**state, "insn": insn, "emit_address": addr, "local_symbol_prefix": local_symbol_prefix}', 'state = {**state, "insn": insn, "emit_address": addr, "local_symbol_prefix": local_symbol_prefix, "extern_all": None}', 1),
     ("C13-include-parsed-under-written-path", "C13", "metacommands.py", "file_ast = parser.parse(include_path, code)", "file_ast = parser.parse(included_file_path, code)", 1),
     ("NEG-symbols-before-base(harmless since fix D54)", "C12", "compiler.py", "        if not link_base[\"promise\"].settled:\n            link_base[\"promise\"].settle(0o1000)\n", "        if not link_base[\"promise\"].settled:\n            link_base[\"promise\"].settle(0o1000)\n        for _, (symbol, value) in self.symbols.items():\n            wait(value)\n", 0),
